@@ -220,6 +220,7 @@ class Sequence:
         for msg in messages:
             abs.add_message(msg)
         self._abs = abs
+        self._abs_stale = False
         self.invalidate_rel()
 
     def overwrite_relative_messages(self, messages: list[Message]) -> None:
@@ -233,6 +234,7 @@ class Sequence:
         for msg in messages:
             rel.add_message(msg)
         self._rel = rel
+        self._rel_stale = False
         self.invalidate_abs()
 
     def pad(self, padding_length) -> None:
